@@ -241,7 +241,11 @@ def run(ctx):
             if not srcs:
                 continue
             pred = lambda x: result_of(P, x, ('call', pn.id, bb))
-            if guarded_by_variant(F, P, pn, i, pred, ['Pending']):
+            callterm = ('call', pn.id, bb)
+            is_q = lambda x, nm: any(P.is_call(r, nm) and any(result_of(P, P.args_of(r)[0], callterm) or any(P.unbound(q) == callterm for q, _ in P.root(P.args_of(r)[0], inline=False)) for _ in [0]) for r, _ in P.root(x, inline=False))
+            if guarded_by_variant(F, P, pn, i, pred, ['Pending']) \
+                    or guarded_by_bool(F, P, pn, i, lambda x: is_q(x, 'Poll::is_ready'), False) \
+                    or guarded_by_bool(F, P, pn, i, lambda x: is_q(x, 'Poll::is_pending'), True):
                 n_ok += 1
         R.ob('C13.wake', ('<MaxChannelsPerKey as Stream>::poll_next', 'Pending only if both sources are Pending'), n_ok >= 2,
              'the stream returns Pending only on the edge where both the listener poll and the notification poll returned Pending (both wakers registered)', [pn.loc(s)], 'guards: %d' % n_ok)
